@@ -138,7 +138,7 @@ mod verif_probe_nms_c14 {
         }
         eprintln!("PROBE cases={} nontrivial={}", cases, nontrivial);
         for f in failures.iter().take(20) { eprintln!("{}", f); }
-        assert!(nontrivial > 1000, "PROBE generator degenerate");
         assert!(failures.is_empty(), "PROBE found {} failing inputs; first: {}", failures.len(), failures[0]);
+        assert!(nontrivial > 1000, "PROBE generator degenerate");
     }
 }
